@@ -30,6 +30,7 @@ THEOREMS = [
     "c20_runner_one_launch_per_name",
     "c20_runner_mixed_names",
     "c20_host_process_irrelevant",
+    "c20_missing_path_not_launched", "c20_runner_survives_unspawnable",
     "c20_errors_classified",
     "c20_errors_surface",
     "c20_extra_members_ignored",
@@ -167,7 +168,7 @@ def stdout_may_fail(c):
         return False
     if c["entry"] == "runner":
         known = c["doc"].get("mcpServers", {})
-        if c.get("mixed") or c.get("cmdfunc") == "raises" or any(n not in known for n in c["names"]):
+        if c.get("mixed") or c.get("unspawnable") or c.get("cmdfunc") == "raises" or any(n not in known for n in c["names"]):
             return False
         if c.get("bare") and len(expected_launches(c, {"PATH": ""})) != len(c["names"]):
             return False
@@ -324,6 +325,31 @@ def mixed_runner_cases(rng, doc, n=3):
     return out
 
 
+def unspawnable_runner_cases(rng, doc, n=2):
+    """the multi-server runner with servers whose command CANNOT BE SPAWNED (no such file / not executable) among
+    healthy ones, at every position: first, last, in the middle, two in a row.  The healthy ones must be launched,
+    reach the handshake and be handed to the command function; the broken ones launch nothing."""
+    good = list(doc["mcpServers"])
+    out = []
+    for pat in rng.sample(["BG", "GB", "GBG", "BGB", "GBB", "BBG", "GGB", "BGG"], n):
+        servers = dict(doc["mcpServers"])
+        names, gi, bi = [], 0, 0
+        gs = rng.sample(good, min(len(good), pat.count("G")))
+        for ch in pat:
+            if ch == "G":
+                if gi < len(gs):
+                    names.append(gs[gi])
+                    gi += 1
+            else:
+                nm = f"broken{bi}"
+                servers[nm] = {"command": rng.choice(["@X", "@N"]) + str(bi), "args": ["x"], **({"env": {"FOO": "1"}} if bi % 2 else {})}
+                names.append(nm)
+                bi += 1
+        out.append({"entry": "runner", "file": "ok", "doc": dict(doc, mcpServers=servers), "names": names, "expect": "valid",
+                    "unspawnable": pat})
+    return out
+
+
 def valid_cases(rng, doc, bare=None):
     """the three entry points on one document"""
     if bare is not None:
@@ -409,6 +435,8 @@ def executed(case, sc, env):
     cmd = sc["command"]
     if cmd.startswith("@W"):
         return cmd
+    if cmd[:2] in ("@X", "@N"):
+        return None                                   # no such file / not executable: cannot be spawned
     bare = case.get("bare") or {}
     if cmd != bare.get("name"):
         return None
@@ -472,6 +500,8 @@ def model_doc(doc):
     for sc in (doc.get("mcpServers") or {}).values():
         if isinstance(sc, dict) and isinstance(sc.get("command"), str) and sc["command"].startswith("@W"):
             sc["command"] = f"@D{sc['command'][2:]}/witness"
+        elif isinstance(sc, dict) and isinstance(sc.get("command"), str) and sc["command"][:2] in ("@X", "@N"):
+            sc["command"] = f"@BROKEN/{sc['command'][1:]}/server"        # a path; not among the existing executable files
     return doc
 
 
@@ -561,6 +591,9 @@ class Entry(Suite):
         for lg in ("names", "modules", "transport", "asyncgen"):
             out.append({"entry": "loader", "file": "ok", "doc": d1, "names": ["b"], "expect": "valid", "legacy": lg})
         out.append({"entry": "runner", "file": "ok", "doc": d3, "names": ["p", "q"], "expect": "valid", "legacy": "names"})
+        d7 = {"mcpServers": dict(d3["mcpServers"], bx={"command": "@X0"}, bn={"command": "@N1", "args": ["a"], "env": {"FOO": "1"}})}
+        for names in (["bx", "p"], ["p", "bx"], ["p", "bn", "q"], ["bx", "p", "bn", "q"], ["p", "q", "bx", "bn"], ["bn", "bx", "r"]):
+            out.append({"entry": "runner", "file": "ok", "doc": d7, "names": names, "expect": "valid", "unspawnable": "directed"})
         for names in (["p", "nosuch"], ["nosuch", "p"], ["p", "nosuch", "q"], ["nosuch", "p", "nosuch", "q", "ghost"], ["p", "nosuch", "nosuch"]):
             out.append({"entry": "runner", "file": "ok", "doc": d3, "names": names, "expect": "valid", "mixed": "directed"})
         for cf in ("interactive_mode", "chat_run", "raises"):
@@ -569,7 +602,7 @@ class Entry(Suite):
         out += malformed_stream(rng, d0, budget)
         if budget != "quick":
             out += malformed_stream(rng, d1, budget)
-        nconf = {"quick": 40, "thorough": 400, "search": 120}[budget]
+        nconf = {"quick": 32, "thorough": 400, "search": 120}[budget]
         for i in range(nconf):
             if i % 5 == 4:
                 doc, bare = gen_bare_doc(rng)
@@ -579,6 +612,8 @@ class Entry(Suite):
             out += [decorate(rng, c) for c in valid_cases(rng, doc)]
             if i % 3 == 0:
                 out += [decorate(rng, c) for c in mixed_runner_cases(rng, doc, 2 if budget == "quick" else 6)]
+            if i % 3 == 1:
+                out += [decorate(rng, c) for c in unspawnable_runner_cases(rng, doc, 2 if budget == "quick" else 6)]
             if budget == "quick":
                 if i < 6:
                     out += [decorate(rng, c) for c in malformed_cases(rng, doc)]
@@ -710,6 +745,10 @@ class Entry(Suite):
                 if o["ret"]["n"] != len(want):
                     return (f"wrong-connection-count/{e}", f"{e}: the command function was handed {o['ret']['n']} connection(s) "
                             f"for {len(want)} loadable server(s) among {case['names']!r}", {"connections": len(want)})
+            if e == "runner" and isinstance(o.get("ret"), dict) and o["ret"].get("n") == len(want) and want \
+                    and case.get("repeat", 1) == 1 and o["ret"].get("pings") != [True] * len(want):
+                return (f"command-lost-connection/{e}", f"{e}: the command function could not use all of its {len(want)} connection(s) "
+                        f"(pings {o['ret'].get('pings')}) for {case['names']!r}", {"pings": [True] * len(want)})
             noinit = [l["cmd"] for l in got if not l["init"]]
             if noinit:
                 return (f"no-initialize/{e}", f"{e}: launched {noinit} but never sent initialize", {"launches": want})
@@ -737,6 +776,8 @@ class Entry(Suite):
         env = "absent" if "env" not in sc else ("null" if sc["env"] is None else "empty" if not sc["env"] else "values")
         t = sc.get("timeout")
         tk = ("absent" if "timeout" not in sc else "null") if t is None else type(t).__name__ + ("0" if t in (0, "0", "0.0") else "")
+        if case.get("unspawnable"):
+            return f"runner/unspawnable-{case['unspawnable']}/{len(known)}-named"
         if case.get("mixed"):
             return f"runner/mixed-{case['mixed'] if case['mixed'] != 'directed' else 'directed'}/{len(known)}of{len(case['names'])}-loadable"
         fam = "/bare" if case.get("bare") else ("/family" if is_family(case["doc"]) else "")
